@@ -23,9 +23,10 @@ from fractions import Fraction
 ID = "C20"
 DRIVER = "drv_c20"
 LEAN_TARGETS = ["PharmpyProofs.C20.Properties", "PharmpyProofs.C20.CovProperties", "PharmpyProofs.C20.ResultsProperties",
-                "PharmpyProofs.C20.JsonProperties", "drv_c20"]
+                "PharmpyProofs.C20.JsonProperties", "PharmpyProofs.C20.LstProperties", "drv_c20"]
 PROPERTIES = ["PharmpyProofs/C20/Properties.lean", "PharmpyProofs/C20/CovProperties.lean",
-              "PharmpyProofs/C20/ResultsProperties.lean", "PharmpyProofs/C20/JsonProperties.lean"]
+              "PharmpyProofs/C20/ResultsProperties.lean", "PharmpyProofs/C20/JsonProperties.lean",
+              "PharmpyProofs/C20/LstProperties.lean"]
 LEAN_SOURCES = ["PharmpyModel/C20/*.lean", "PharmpyModel/Generated/ExtCodes.lean", "PharmpyProofs/C20/*.lean",
                 "Drivers/C20.lean", "PharmpyModel/Core/Sexp.lean"]
 TIME_LIMIT = {"quick": 900, "thorough": 3000}
@@ -395,8 +396,11 @@ def gen_phi(rng, hostile):
         rows = []
         ids = sorted(rng.sample(range(1, 60), rng.randint(0, 6)))
         for s, i in enumerate(ids, start=1):
-            if rng.random() < 0.2:
+            r_ = rng.random()
+            if r_ < 0.2:       # no observations: zero in every column
                 cells = [["s", False, 5, 0, 0] for _ in range(ncell)] + [["f", False, 0, 16, 0]]
+            elif r_ < 0.35:    # First Order / all OMEGA fixed to zero: ETA and ETC all zero, but an individual OFV
+                cells = [["s", False, 5, 0, 0] for _ in range(ncell)] + [gen_obj(rng)]
             else:
                 cells = [gen_sci(rng, zero_p=0.1, wide=hostile and rng.random() < 0.1) for _ in range(ncell)] + [gen_obj(rng)]
             rows.append([["i", s], ["i", i]] + cells)
@@ -556,6 +560,37 @@ def gen_rundir(rng):
             "table": gen_table_pattern(rng)}
 
 
+LST_CUTS = ["complete", "complete", "before-first-tbln", "no-lst", "between-blocks", "mid-block", "fewer-blocks", "more-blocks"]
+
+
+def gen_lst_run(rng):
+    """one run: ext with 1-3 estimation tables, lst blocks (#TBLN) with their own numbers, and how the lst is cut"""
+    ntab = rng.choice([1, 1, 2, 3])
+    blocks = [{"n": i + 1, "ok": rng.random() < 0.6, "feval": rng.randint(5, 999), "sig": round(rng.uniform(1, 5), 1),
+               "time": round(rng.uniform(0.01, 90), 2)} for i in range(ntab)]
+    cut = rng.choice(LST_CUTS)
+    d = {"ntab": ntab, "blocks": blocks, "cut": cut}
+    if cut == "mid-block":
+        d["cut_block"], d["cut_line"] = rng.randrange(ntab), rng.randint(1, 9)
+    elif cut == "between-blocks":
+        d["keep"] = rng.randint(0, ntab - 1) if ntab > 1 else 0
+    elif cut == "fewer-blocks":
+        d["keep"] = rng.randint(0, ntab - 1)
+    elif cut == "more-blocks":
+        d["blocks"] = blocks + [{"n": ntab + 1, "ok": True, "feval": rng.randint(5, 999), "sig": 3.0, "time": 1.0}]
+    return d
+
+
+def gen_runseq(rng):
+    """several runs read one after the other in ONE process, in a given order (some read twice)"""
+    runs = [gen_lst_run(rng) for _ in range(rng.randint(2, 4))]
+    order = list(range(len(runs)))
+    rng.shuffle(order)
+    if rng.random() < 0.5:
+        order.append(rng.choice(order))
+    return {"kind": "runseq", "runs": runs, "order": order}
+
+
 def gen_json(rng):
     cfg = gen_config(rng)
     labs = [lab for lab in cfg["labels"] if not cfg["fixed"][lab]]
@@ -653,8 +688,10 @@ def gen_cases(rng, n, tier):
             c = gen_generic(rng, hostile)
         elif r < 0.945:
             c = gen_relations(rng)
-        elif r < 0.975:
+        elif r < 0.97:
             c = gen_rundir(rng)
+        elif r < 0.985:
+            c = gen_runseq(rng)
         else:
             c = gen_json(rng)
         if c["kind"] in ("ext", "phi", "cov", "generic"):
@@ -721,7 +758,21 @@ def corpus_cases():
           "se": None, "ids": [1, 2], "neta": 1, "matrix": False, "seed": 14,
           "frames": [{"kind": "range", "n": 3, "ncol": 2, "start": 1, "step": 2},
                      {"kind": "multi-named", "n": 3, "ncol": 1, "labels": [[1, 0.0], [1, 0.5], [2, 0.0]]}]}
-    return [ext, ext2, ext3, gen, gen2, gen3, rd, rd2, rd3, rd4, rd5, rd6, rd7, js]
+    blk = lambda n, fe: {"n": n, "ok": True, "feval": fe, "sig": 3.6, "time": 0.32}
+    # a complete run, then a run whose lst was cut off before its first #TBLN, then the first again
+    seq = {"kind": "runseq", "seed": 15, "order": [0, 1, 0, 2],
+           "runs": [{"ntab": 1, "blocks": [blk(1, 107)], "cut": "complete"},
+                    {"ntab": 1, "blocks": [blk(1, 55)], "cut": "before-first-tbln"},
+                    {"ntab": 2, "blocks": [blk(1, 31), blk(2, 77)], "cut": "fewer-blocks", "keep": 1}]}
+    # phi file of a First Order fit: ETA / ETC all zero, individual OFV non-zero (such individuals have observations)
+    zc = ["s", False, 5, 0, 0]
+    phi = {"kind": "phi", "suffix": ".phi", "notitle": False, "nolabel": False, "muts": [], "seed": 16, "neta": 1,
+           "tables": [{"number": 1, "now": 6, "title": ti, "hw": 13, "names": ["SUBJECT_NO", "ID", "ETA(1)", "ETC(1,1)", "OBJ"],
+                       "cols": [[13, "r"]] * 4 + [[22, "r"]], "repeat": 0,
+                       "rows": [[["i", 1], ["i", 1], zc, zc, ["f", False, 5, 16, 9473520242962552]],
+                                [["i", 2], ["i", 2], zc, zc, ["f", False, 0, 16, 0]],
+                                [["i", 3], ["i", 4], _S(959341, -2), _S(221606, -2), ["f", False, 9, 16, 9823422194015698]]]}]}
+    return [ext, ext2, ext3, gen, gen2, gen3, rd, rd2, rd3, rd4, rd5, rd6, rd7, js, seq, phi]
 
 
 def shrink(case):
@@ -1979,10 +2030,149 @@ def run_json(case, drv, k, mon, tags):
         mon.append({"cls": "json-roundtrip-standard_errors", "what": "None comes back as a value"})
 
 
+LST_HEAD = ["Mon Jan  1 10:00:00 CET 2024", "$PROBLEM run", "1NONLINEAR MIXED EFFECTS MODEL PROGRAM (NONMEM) VERSION 7.4.2",
+            " ORIGINALLY DEVELOPED BY STUART BEAL, LEWIS SHEINER, AND ALISON BOECKMANN"]
+LST_TAIL = ["1", "Stop Time:", "Mon Jan  1 10:00:04 CET 2024"]
+
+
+def lst_block(b, last):
+    """lines of one estimation block with the field each line carries (a block exists once a tag follows its #TBLN)"""
+    out = [("1", None), (f" #TBLN:{b['n']:7d}", None), (" #METH: First Order Conditional Estimation with Interaction", "tbln"),
+           (" #TERM:", None), ("0MINIMIZATION SUCCESSFUL" if b["ok"] else "0MINIMIZATION TERMINATED", "ok")]
+    if not b["ok"]:
+        out.append((" DUE TO ROUNDING ERRORS (ERROR=134)", None))
+    out += [(f" NO. OF FUNCTION EVALUATIONS USED:{b['feval']:9d}", "feval"), (f" NO. OF SIG. DIGITS IN FINAL EST.:{b['sig']:5.1f}", "sig"),
+            (" #TERE:", None), (f" Elapsed estimation  time in seconds:{b['time']:9.2f}", "time")]
+    if last:
+        out.append((" Elapsed covariance  time in seconds:     0.28", None))
+    out += [(" Elapsed postprocess time in seconds:     0.09", None), ("1", None),
+            (" #OBJV:********************************************      586.276       **************************************************", None)]
+    return out
+
+
+def lst_of_run(run):
+    """(lines or None, {table number: {field: value}}) — what the lst file really contains"""
+    cut = run["cut"]
+    if cut == "no-lst":
+        return None, {}
+    blocks = run["blocks"]
+    if cut == "before-first-tbln":
+        return list(LST_HEAD), {}
+    if cut in ("between-blocks", "fewer-blocks"):
+        blocks = blocks[:run["keep"]]
+    lines, content = list(LST_HEAD), {}
+    for i, b in enumerate(blocks):
+        bl = lst_block(b, i == len(run["blocks"]) - 1 or i == len(blocks) - 1)
+        if cut == "mid-block" and i == run["cut_block"]:
+            bl = bl[:1 + run["cut_line"]]
+        for line, field in bl:
+            lines.append(line)
+            if field == "tbln":
+                content[b["n"]] = {}
+            elif field is not None and b["n"] in content:
+                content[b["n"]][field] = b[field]
+        if cut == "mid-block" and i == run["cut_block"]:
+            return lines, content
+    if cut in ("complete", "more-blocks", "fewer-blocks"):
+        lines += LST_TAIL
+    return lines, content
+
+
+def ext_of_run(run):
+    out = []
+    for n in range(1, run["ntab"] + 1):
+        out += [f"TABLE NO.{n:6d}: First Order Conditional Estimation with Interaction: Problem=1 Subproblem=0 Superproblem1=0 "
+                f"Iteration1=0 Superproblem2=0 Iteration2=0",
+                " ITERATION    THETA1       SIGMA(1,1)   OMEGA(1,1)   OBJ",
+                "            0  1.00000E+00  1.00000E-01  2.00000E-01    587.36644134661617",
+                "  -1000000000  1.10000E+00  1.10000E-01  2.10000E-01    586.27605628188053",
+                "  -1000000001  1.00000E-02  1.00000E-03  2.00000E-03    0.0000000000000000",
+                "  -1000000004  0.00000E+00  3.00000E-01  4.00000E-01    0.0000000000000000",
+                "  -1000000005  0.00000E+00  3.00000E-03  4.00000E-03    0.0000000000000000",
+                "  -1000000006  0.00000E+00  0.00000E+00  0.00000E+00    0.0000000000000000"]
+    return out
+
+
+def run_runseq(case, drv, k, mon, tags):
+    """several run directories read one after the other in this process: what is reported for a run comes from its own
+    output files — whatever was read before — and is missing (False / NaN) where its lst file does not have it"""
+    import warnings
+    from pharmpy.model import Model
+    from pharmpy.tools.external.nonmem.results import parse_modelfit_results
+    from pharmpy.tools.external.nonmem.results_file import NONMEMResultsFile
+    runs = case["runs"]
+    root = scratch_root() / f"c20-seq-{os.getpid()}"
+    shutil.rmtree(root, ignore_errors=True)
+    tags.append(f"runseq:len={len(case['order'])}")
+    try:
+        dirs, truth = [], []
+        for i, run in enumerate(runs):
+            d = root / f"r{i}"
+            d.mkdir(parents=True, exist_ok=True)
+            est = "\n".join(["$ESTIMATION METHOD=1 INTER"] * run["ntab"])
+            (d / "run1.mod").write_text("$PROBLEM run\n$INPUT ID TIME DV\n$DATA run1.csv IGNORE=@\n$PRED\nY = THETA(1)*EXP(ETA(1)) + EPS(1)\n"
+                                        f"$THETA (0,1)\n$OMEGA 0.2\n$SIGMA 0.1\n{est}\n$COVARIANCE\n")
+            (d / "run1.csv").write_text("ID,TIME,DV\n1,0,1.0\n1,1,2.0\n")
+            (d / "run1.ext").write_text("\n".join(ext_of_run(run)) + "\n")
+            lines, content = lst_of_run(run)
+            if lines is not None:
+                (d / "run1.lst").write_text("\n".join(lines) + "\n")
+            dirs.append(d)
+            truth.append(content)
+            tags.append("runseq:lst=" + run["cut"])
+        first = {}
+        for pos, i in enumerate(case["order"]):
+            run, content = runs[i], truth[i]
+            ctx = f"run {i} (lst {run['cut']}, {run['ntab']} ext tables) read at position {pos} of order {case['order']}"
+            # --- K: the dictionary of this NONMEMResultsFile instance vs the Lean model of a fresh instance
+            if (dirs[i] / "run1.lst").exists():
+                rf = NONMEMResultsFile(dirs[i] / "run1.lst")
+                code_tab = [[str(n), str(rf.estimation_status(n)["function_evaluations"])] for n in rf.table]
+                if drv is not None:
+                    blocks = [[n, str(float(f["feval"])) if "feval" in f else "nan"] for n, f in content.items()]
+                    m = drv.ask(["lsttable", blocks])
+                    cm = [[a, "nan" if b in ("nan", "None") else str(float(b))] for a, b in code_tab]
+                    if m != cm:
+                        k.append(f"lst table of {ctx}: model {m} code {cm}")
+            try:
+                with warnings.catch_warnings():
+                    warnings.simplefilter("ignore")
+                    res = parse_modelfit_results(Model.parse_model(dirs[i] / "run1.mod"), dirs[i] / "run1.mod")
+            except Exception as e:  # noqa
+                mon.append({"cls": "internal-error", "what": f"{ctx}: parse_modelfit_results raised {type(e).__name__}: {e}"})
+                continue
+            fl = lambda x: float("nan") if x is None else float(x)
+            got = {"ok": [bool(x) for x in res.minimization_successful_iterations],
+                   "feval": [fl(x) for x in res.function_evaluations_iterations],
+                   "sig": [fl(x) for x in res.significant_digits_iterations],
+                   "time": [fl(x) for x in res.estimation_runtime_iterations]}
+            # --- monitor: the numbers of this run's own lst file, or missing
+            for field, missing in (("ok", False), ("feval", float("nan")), ("sig", float("nan")), ("time", float("nan"))):
+                want = [content.get(n, {}).get(field, missing) for n in range(1, run["ntab"] + 1)]
+                g = got[field]
+                same_ = len(g) == len(want) and all((w == v) or (isinstance(w, float) and math.isnan(w) and math.isnan(v)) for w, v in zip(want, g))
+                if not same_:
+                    foreign = any(j != i and any(f.get(field) == v for f in truth[j].values()) for j in case["order"][:pos] for v in g
+                                  if not (isinstance(v, float) and math.isnan(v)))
+                    mon.append({"cls": "runseq-lst-value-of-another-run" if foreign else "runseq-lst-value-wrong",
+                                "what": f"{ctx}: {field} per estimation step reported as {g}, its lst file has {want}"})
+                    break
+            # --- metamorphic: reading a run again later gives what it gave the first time
+            key = (got["ok"], [repr(x) for x in got["feval"]], [repr(x) for x in got["sig"]], [repr(x) for x in got["time"]])
+            if i in first and first[i] != key:
+                mon.append({"cls": "runseq-history-dependent", "what": f"{ctx}: lst-derived results differ from the first time this run was read"})
+            first.setdefault(i, key)
+    finally:
+        shutil.rmtree(root, ignore_errors=True)
+
+
 def run_case(case, drv):
     k, mon, tags = [], [], []
     kind = case["kind"]
     tags.append("kind:" + kind)
+    if kind == "runseq":
+        run_runseq(case, drv, k, mon, tags)
+        return {"k": k, "mon": mon, "tags": tags, "nontrivial": True}
     if kind == "rundir":
         run_rundir(case, drv, k, mon, tags)
         return {"k": k, "mon": mon, "tags": tags, "nontrivial": True}
